@@ -1,4 +1,4 @@
-from .common import grid_plan, need_classes
+from .common import pytest_contracts_job, grid_plan, need_classes
 
 LEVEL = "exploration"
 RULE = (
@@ -12,15 +12,33 @@ ASSUMPTIONS = ["a constructor that raises is a refusal (counted, not a violation
 
 
 def plan(tier, seed):
+    p_ = _plan(tier, seed)
+    if tier == "thorough":
+        p_.setdefault("jobs", []).append(pytest_contracts_job())
+    return p_
+
+
+def _plan(tier, seed):
     ntr = 1200 if tier == "quick" else 20000
     shards = 2 if tier == "quick" else 12
     jobs = [{"name": "c10-unit-%d" % k, "module": "vmon.jobs.c10_unit", "args": {"seed": 1000 * seed + k, "trials": ntr // shards}, "timeout": 1800} for k in range(shards)]
+    from .. import cases
+
     p = grid_plan(tier, seed, "C10")
+    pairs = [("lsn", dict(s=1, fs=1)), ("udn", dict(s=-1, fs=1))] if tier == "quick" else [("lsn", dict(s=1, fs=1)), ("udn", dict(s=-1, fs=1)), ("cdn", dict(s=1, fs=-1)), ("usn", dict(s=-1, fs=-1, interp="dct"))]
+    for topo, kw in pairs:
+        a_ = cases.tok(topo, tag="c10-ny-%s" % topo, guards=1, **kw)
+        b_ = cases.tok(topo, tag="c10-2ny-%s" % topo, guards=2, **kw)
+        for k in list(b_["opts"]):
+            if k.startswith("ny_"):
+                b_["opts"][k] = 2 * b_["opts"][k]
+        p["cases"] += [a_, b_]
+        jobs.append({"name": "c10-nest-" + topo, "module": "vmon.jobs.ladder", "args": {"mode": "nest_y", "cases": [a_, b_], "cls": "ny doubling"}, "timeout": 900})
     p["jobs"] = jobs
     return p
 
 
 def required(tier, classes, records):
     pats = [(c, "^" + c.replace(".", r"\.") + "$") for c in ("monotonic", "sqrt:wall.X", "sqrt:X.wall", "sqrt:X.X", "sqrt:wall.wall", "linear")]
-    pats += [("guarded sqrt", "guarded:sqrt"), ("guarded monotonic", "guarded:monotonic"), ("guarded linear", "guarded:linear"), ("guarded wall.wall", r"guarded:.*:wall\.wall"), ("guarded X.X", r"guarded:.*:X\.X")]
+    pats += [("guarded sqrt", "guarded:sqrt"), ("guarded monotonic", "guarded:monotonic"), ("guarded linear", "guarded:linear"), ("guarded wall.wall", r"guarded:.*:wall\.wall"), ("guarded X.X", r"guarded:.*:X\.X"), ("ny doubling", r"ny doubling")]
     return need_classes(classes, pats)
